@@ -46,6 +46,16 @@ Lemma hoare_weaken {A} (P P' Q Q' : world -> Prop) (m : M A) :
   hoare P' m Q' -> (forall w, P w -> P' w) -> (forall w, Q' w -> Q w) -> hoare P m Q.
 Proof. intros H HP HQ w r w' Hw E. eauto. Qed.
 
+(* result-aware sequencing *)
+Lemma hoare_bind_res {A B} (P : world -> Prop) (Q : A -> world -> Prop) (R : world -> Prop)
+      (m : M A) (f : A -> M B) :
+  (forall w r w1, P w -> m w = (r, w1) -> match r with Ok a => Q a w1 | _ => R w1 end) ->
+  (forall a, hoare (Q a) (f a) R) -> hoare P (bind m f) R.
+Proof.
+  intros Hm Hf w r w' HP E. unfold bind in E. destruct (m w) as [ra w1] eqn:Em.
+  specialize (Hm _ _ _ HP Em). destruct ra as [a|e|]; [eapply Hf; eauto| |]; inversion E; subst; exact Hm.
+Qed.
+
 (* binding the state read by get: the continuation may use facts about it *)
 Lemma hoare_bind_get {B} (P R : world -> Prop) (f : world -> M B) :
   (forall w0, hoare (fun w => P w /\ w = w0) (f w0) R) -> hoare P (bind get f) R.
@@ -76,6 +86,104 @@ Proof. intros HR w r w' E. inversion E; subst; auto. Qed.
 Lemma rel_modify (R : world -> world -> Prop) f : (forall w, R w (f w)) -> rel R (modify f).
 Proof. intros H w r w' E. inversion E; subst; auto. Qed.
 
+(* Total version: the computation always returns Ok, and R relates the two states. *)
+Definition okrel {A} (R : world -> world -> Prop) (m : M A) : Prop :=
+  forall w, exists a w', m w = (Ok a, w') /\ R w w'.
+
+Lemma okrel_ret {A} (R : world -> world -> Prop) (a : A) : (forall w, R w w) -> okrel R (ret a).
+Proof. intros HR w. exists a, w. split; [reflexivity|apply HR]. Qed.
+Lemma okrel_get (R : world -> world -> Prop) : (forall w, R w w) -> okrel R get.
+Proof. intros HR w. exists w, w. split; [reflexivity|apply HR]. Qed.
+Lemma okrel_modify (R : world -> world -> Prop) f : (forall w, R w (f w)) -> okrel R (modify f).
+Proof. intros HR w. exists tt, (f w). split; [reflexivity|apply HR]. Qed.
+Lemma okrel_bind {A B} (R : world -> world -> Prop) (m : M A) (f : A -> M B) :
+  (forall a b c, R a b -> R b c -> R a c) ->
+  okrel R m -> (forall a, okrel R (f a)) -> okrel R (bind m f).
+Proof.
+  intros HT Hm Hf w. destruct (Hm w) as (a & w1 & E1 & R1).
+  destruct (Hf a w1) as (b & w2 & E2 & R2). exists b, w2. split; [|eauto].
+  unfold bind. rewrite E1. exact E2.
+Qed.
+Lemma okrel_rel {A} (R : world -> world -> Prop) (m : M A) : okrel R m -> rel R m.
+Proof. intros H w r w' E. destruct (H w) as (a & w1 & E1 & R1). rewrite E1 in E. inversion E; subst. exact R1. Qed.
+
+(* Which exceptions a computation may raise. *)
+Definition resok {A} (allowed : exn -> bool) (m : M A) : Prop :=
+  forall w r w', m w = (r, w') -> match r with Raise e => allowed e = true | _ => True end.
+
+Lemma resok_ret {A} al (a : A) : resok al (ret a).
+Proof. intros w r w' E. inversion E; subst. exact I. Qed.
+Lemma resok_get al : resok al get.
+Proof. intros w r w' E. inversion E; subst. exact I. Qed.
+Lemma resok_modify al f : resok al (modify f).
+Proof. intros w r w' E. inversion E; subst. exact I. Qed.
+Lemma resok_diverge {A} al : resok al (@diverge A).
+Proof. intros w r w' E. inversion E; subst. exact I. Qed.
+Lemma resok_raise {A} (al : exn -> bool) e : al e = true -> resok al (@raise A e).
+Proof. intros H w r w' E. inversion E; subst. exact H. Qed.
+Lemma resok_bind {A B} al (m : M A) (f : A -> M B) :
+  resok al m -> (forall a, resok al (f a)) -> resok al (bind m f).
+Proof.
+  intros Hm Hf w r w' E. unfold bind in E. destruct (m w) as [ra w1] eqn:Em.
+  specialize (Hm _ _ _ Em). destruct ra as [a|e|]; [eapply Hf; eauto| |]; inversion E; subst; auto.
+Qed.
+Lemma resok_weaken {A} (a b : exn -> bool) (m : M A) :
+  resok a m -> (forall e, a e = true -> b e = true) -> resok b m.
+Proof. intros H Hab w r w' E. specialize (H _ _ _ E). destruct r; auto. Qed.
+
+(* No divergence from states satisfying P. *)
+Definition nd {A} (P : world -> Prop) (m : M A) : Prop :=
+  forall w r w', P w -> m w = (r, w') -> r <> Diverge.
+
+Lemma nd_ret {A} P (a : A) : nd P (ret a).
+Proof. intros w r w' _ E. inversion E; subst. discriminate. Qed.
+Lemma nd_get P : nd P get.
+Proof. intros w r w' _ E. inversion E; subst. discriminate. Qed.
+Lemma nd_modify P f : nd P (modify f).
+Proof. intros w r w' _ E. inversion E; subst. discriminate. Qed.
+Lemma nd_raise {A} P e : nd P (@raise A e).
+Proof. intros w r w' _ E. inversion E; subst. discriminate. Qed.
+Lemma nd_bind {A B} P (m : M A) (f : A -> M B) :
+  nd P m -> preserves P m -> (forall a, nd P (f a)) -> nd P (bind m f).
+Proof.
+  intros Hm Hp Hf w r w' HP E. unfold bind in E. destruct (m w) as [ra w1] eqn:Em.
+  pose proof (Hm _ _ _ HP Em) as Hnd. pose proof (Hp _ _ _ HP Em) as HP1.
+  destruct ra as [a|e|].
+  - eapply Hf; eauto.
+  - inversion E; subst. discriminate.
+  - exfalso. apply Hnd. reflexivity.
+Qed.
+Lemma nd_weaken {A} (P Q : world -> Prop) (m : M A) : (forall w, P w -> Q w) -> nd Q m -> nd P m.
+Proof. intros H Hm w r w' HP E. eapply Hm; eauto. Qed.
+(* result-aware sequencing: the continuation is examined from the exact state m reached *)
+Lemma nd_bind_res {A B} P (m : M A) (f : A -> M B) :
+  nd P m ->
+  (forall w a w1, P w -> m w = (Ok a, w1) -> forall r w2, f a w1 = (r, w2) -> r <> Diverge) ->
+  nd P (bind m f).
+Proof.
+  intros Hm Hf w r w' HP E. unfold bind in E. destruct (m w) as [ra w1] eqn:Em.
+  pose proof (Hm _ _ _ HP Em) as Hnd.
+  destruct ra as [a|e|].
+  - eapply Hf; eauto.
+  - inversion E; subst. discriminate.
+  - exfalso. apply Hnd. reflexivity.
+Qed.
+Lemma nd_bind_get {B} P (f : world -> M B) :
+  (forall w0, nd (fun w => P w /\ w = w0) (f w0)) -> nd P (bind get f).
+Proof. intros H w r w' HP E. unfold bind, get in E. eapply H; eauto. Qed.
+
+(* the Ok results of a computation are always the constant c *)
+Definition always {A} (c : A) (m : M A) : Prop := forall w b w', m w = (Ok b, w') -> b = c.
+Lemma always_ret {A} (c : A) : always c (ret c).
+Proof. intros w b w' E. inversion E; reflexivity. Qed.
+Lemma always_bind {A B} (c : B) (m : M A) (f : A -> M B) : (forall a, always c (f a)) -> always c (bind m f).
+Proof.
+  intros Hf w b w' E. unfold bind in E. destruct (m w) as [[a|e|] w1]; [eapply Hf; eauto| |]; discriminate.
+Qed.
+
+Lemma bind_ok {A B} (m : M A) (f : A -> M B) w a w1 : m w = (Ok a, w1) -> bind m f w = f a w1.
+Proof. intros E. unfold bind. rewrite E. reflexivity. Qed.
+
 Create HintDb pres discriminated.
 
 (* [pres solver]: decompose; [solver] closes the goals  forall w, I w -> I (f w)  left by
@@ -102,7 +210,10 @@ Ltac pres_step solver :=
   | |- preserves _ (let '(_, _) := ?x in _) => destruct x
   end.
 
-Ltac pres solver := repeat (first [ solve [eauto 3 with pres] | pres_step solver ]).
+Ltac fold_preserves :=
+  try match goal with |- hoare ?I ?m ?I => change (preserves I m) end.
+
+Ltac pres solver := repeat (fold_preserves; first [ solve [eauto 3 with pres] | pres_step solver ]).
 
 Ltac rel_step refl trans solver :=
   lazymatch goal with
@@ -118,3 +229,41 @@ Ltac rel_step refl trans solver :=
   end.
 
 Ltac relp refl trans solver := repeat (first [ solve [eauto 3 with pres] | rel_step refl trans solver ]).
+
+Ltac ok_step refl trans solver :=
+  lazymatch goal with
+  | |- okrel _ (bind _ _) => apply okrel_bind; [ exact trans | | intro ]
+  | |- okrel _ (ret _) => apply okrel_ret; exact refl
+  | |- okrel _ get => apply okrel_get; exact refl
+  | |- okrel _ (modify _) => apply okrel_modify; solver
+  | |- okrel _ (if ?b then _ else _) => destruct b
+  | |- okrel _ (match ?x with _ => _ end) => destruct x
+  end.
+Ltac okp refl trans solver := repeat (first [ solve [eauto 3 with pres] | ok_step refl trans solver ]).
+
+Ltac resok_step :=
+  lazymatch goal with
+  | |- resok _ (bind _ _) => apply resok_bind; [ | intro ]
+  | |- resok _ (ret _) => apply resok_ret
+  | |- resok _ get => apply resok_get
+  | |- resok _ (modify _) => apply resok_modify
+  | |- resok _ diverge => apply resok_diverge
+  | |- resok _ (raise _) => apply resok_raise; reflexivity
+  | |- resok _ (if ?b then _ else _) => destruct b
+  | |- resok _ (match ?x with _ => _ end) => destruct x
+  | |- resok _ (let '(_, _) := ?x in _) => destruct x
+  end.
+Ltac resokp := repeat (first [ solve [eauto 3 with pres] | resok_step ]).
+
+Ltac nd_step presdb :=
+  lazymatch goal with
+  | |- nd _ (bind _ _) => apply nd_bind; [ | solve [presdb] | intro ]
+  | |- nd _ (ret _) => apply nd_ret
+  | |- nd _ get => apply nd_get
+  | |- nd _ (modify _) => apply nd_modify
+  | |- nd _ (raise _) => apply nd_raise
+  | |- nd _ (if ?b then _ else _) => destruct b
+  | |- nd _ (match ?x with _ => _ end) => destruct x
+  | |- nd _ (let '(_, _) := ?x in _) => destruct x
+  end.
+Ltac ndp presdb := repeat (first [ solve [eauto 3 with pres] | nd_step presdb ]).
